@@ -6,7 +6,7 @@
 Any report is triaged by hand: a violation the author introduced, or a false alarm of the machinery (see DESIGN.md §7)."""
 import json, os, subprocess, sys, glob, shutil
 REPO = "/repo"
-CHECKS = "C01 C02 C03 C04 C05 C06 C08 C09 C10 C11 C12 C13 C15 C16 C17 C20".split()
+CHECKS = os.environ.get("NEUTRAL_CHECKS", "C01 C02 C03 C04 C05 C06 C08 C09 C10 C11 C12 C13 C15 C16 C17 C20").split()
 def sh(cmd, cwd=None): return subprocess.run(cmd, shell=True, capture_output=True, text=True, cwd=cwd)
 def clean(): return sh(f"git -C {REPO} status --porcelain").stdout.strip() == ""
 
@@ -45,7 +45,9 @@ def run(ids):
                 row[cid] = {"exit": r.returncode, "reports": [l[:400] for l in lines[:6]]}
         finally:
             sh(f"git -C {REPO} checkout -- . && git -C {REPO} clean -fdq -- src tests")
-        json.dump(row, open(f"{d}result.json", "w"), indent=1)
+        old = json.load(open(f"{d}result.json")) if os.path.exists(f"{d}result.json") else {}
+        old.update(row)
+        json.dump(old, open(f"{d}result.json", "w"), indent=1)
         print(nid, " ".join(f"{c}:{row[c]['exit']}" for c in CHECKS), flush=True)
         for c in CHECKS:
             for l in row[c]["reports"][:2]:
